@@ -25,8 +25,8 @@ P = {
  "C06": ("Coq proof: visit (ascending/descending, early stop, depth) delivers exactly the first j+1 items of the requested range of the sorted list with true depths; differential: delivered sequences vs reference and model, depths vs the implementation's own tree",
          "Theorem covers every tree, comparator, target, stop position; ties to code via extracted model on seeded contents x targets x modes x stops x cache states.",
          "In-visit eviction/re-fetch is exercised on the implementation (cache states), not in the pure visit model."),
- "C07": ("fault enumeration driven by the model-free oracles: every file call k of chosen API calls made to fail (writes torn), plus random faults with deferred verification; Coq: abort restores marks (Proto.v) so the recycling invariant carries over",
-         "For each enumerated fault: error returned, no panic/hang, durable bytes unchanged, contents equal pre-fault reference, fresh Store on the image shows the last Flush, heap-dump invariant (no stale reclaim marks), fault-free continuation matches the reference.",
+ "C07": ("Coq proof: Store.Flush on bytes with ONE failing WriteAt call at any call number and any torn length (DiskFault.flush_fault): it fails, damages nothing durable, leaves contents and representation intact, and the retried Flush produces exactly the file of a Flush that never failed; over whole histories failed Flush calls anywhere are invisible to every completed call (DFaultRefine: C02's refinement generalised to dirty stores; the two excluded situations are proved necessary and are the known finding / the documented no-roots error); a key-only lookup with a failing ReadAt and its retry (LazyFault); a failed mutation restores the reclaim marks (Proto.v); order of effects in the source regenerated on every run (Decisions.v). Tie: fault enumeration on the implementation — every file call k of chosen API calls made to fail (writes torn) — with byte-exact comparison of the file after every failed and completed Flush against the fault model, exact ReadAt lists of failed lookups and their retries against LazyFault, and the model-free oracles for all other calls",
+         "Theorems for every call number, torn length and history (side conditions boolean, evaluated on the runs); for each enumerated fault on the implementation: error returned, no panic/hang, durable bytes unchanged, contents equal pre-fault reference, fresh Store on the image shows the last Flush, heap-dump invariant (no stale reclaim marks), fault-free continuation matches the reference, file bytes / read lists equal to the fault models.",
          "Known findings: Exist/ExistAny cannot report errors; FlushRevert right after a partially written failed Flush. Fault positions are enumerated per call, not per history exhaustively in quick tier."),
  "C08": ("Coq proof: the modelled backward scan / revert terminates for every file (fuel bound proved) and returns the previous valid root; history-level refinement of the byte-level store (runs of reverts, also past the first flush); the necessary side condition (no committed value that is itself a position-consistent root record) is proved necessary by a refutation witness, replayed on the implementation (known finding); differential on histories with 0..many flushes and runs of reverts, byte-exact file comparison, watchdog for termination",
          "Termination and walk-back proved on the scan model for all files and over whole histories; histories compare contents, names, file length, file bytes and a re-open of the image after every revert.",
@@ -61,8 +61,8 @@ P = {
  "C18": ("Coq proof: iterator handshake LTS (consumer/producer/two rendezvous channels) terminates with the producer exited for every n, command list and schedule; tie: goroutine exit and pin release observed on the implementation for all stop positions; nested calls in visitors with watchdog",
          "Partial: the LTS abstracts Go channels and scheduling; goroutine exit is observed, not proved, on the implementation.",
          "Go runtime semantics of channels assumed as in the LTS."),
- "C19": ("Coq proof over the read-event model (open reads the root only; key-only operations read node records, item headers and keys only) + model-free oracle: every ReadAt of a key-only call intersected with all value byte ranges; NewStore must issue exactly Stat + trailer + root reads",
-         "Every read of every key-only call in every history is checked; open I/O shape checked at every re-open regardless of file size.",
+ "C19": ("Coq proof over the read-event models: NewStore reads the root record only; GetItem/MinItem/MaxItem/visits (Lazy.v) and SetItem/Delete (LazyMut.v: union/split/join/numInfo instrumented with every record they touch, proved to compute the same trees) read node records, item headers and keys only, for any cache state; the reload rule of itemLoc.read regenerated from the source (Decisions.v). Tie: the EXACT list of ReadAt calls of every NewStore and of the first lookup, visit, SetItem or Delete after it equals the model's; model-free oracle: every ReadAt of every key-only call intersected with all value byte ranges",
+         "Theorems for every tree, key, comparator and cache state; every read of every key-only call in every history is checked; exact read lists compared ~1,900 times per run.",
          "Value ranges derived from the implementation's own write log."),
 }
 
